@@ -146,7 +146,11 @@ impl StaticSound {
 	}
 
 	fn seek_by(&mut self, amount: f64) {
-		let current_position = self.transport.position as f64 / self.sample_rate as f64;
+		// measure from the frame being heard (what the handle reports as the
+		// position), not from the transport, which runs a few frames ahead and
+		// may already have wrapped around a loop
+		let current_position =
+			self.resampler.current_frame_index() as f64 / self.sample_rate as f64;
 		let position = current_position + amount;
 		let index = (position * self.sample_rate as f64) as usize;
 		self.seek_to_index(index);
